@@ -123,7 +123,9 @@ CHECKS = {
         level='model_checking',
         technique='same symbolic run of the real assembler as C02; per path the real disassembler and re-assembler are run on the candidate with symbolic number fields; fixpoint membership decided per path (z3)',
         text='Forward (solver): for every accepted line class and every candidate b with symbolic numbers the real decoder accepts b and consumes exactly len(b) bytes, for all number values of the path. '
-             'Text layer (witnesses, labelled): asm(str(dis(b))) contains b at the path witness. The converse direction is covered for the candidates themselves only.',
+             'Text layer (witnesses, labelled): asm(str(dis(b))) contains b at the path witness. Converse (solver): on every path of the symbolic decoder exploration the real Intel rendering, produced in render mode '
+             '(symbolic numbers printed as placeholder numerals, sign by fork), goes through the real parser with the placeholders mapped back to the symbolic values, and the original bytes must be among the candidates for all byte values; '
+             'reported only for canonical encodings (GNU as reproduces exactly the bytes from the rendering at the witness).',
         note='Trusted: z3, proxies, GNU as as the producer of canonical encodings. Bounds as C02; rendering is concrete per witness (CPython string formatting is not encoded).',
         design='5/C03', engine='E2'),
     'C04': dict(
@@ -155,6 +157,14 @@ CHECKS = {
              'with the SAME symbolic numbers; on every joint path the two candidate lists must be equal as sets of byte strings for all number values.',
         note='Trusted: z3, proxies, the respelling generator (vf/checks/c19.py). Bounds: <= 3 operands, numbers in [0, 2^32), SIB families listed in evidence.',
         design='5/C19', engine='E2'),
+    'C09': dict(
+        level='model_checking',
+        technique='symbolic execution of the real decoder, of the real Intel and AT&T renderers in render mode (symbolic numbers as placeholder numerals) and of the real matching parsers; membership of the original bytes among the candidates as an SMT validity query (z3)',
+        text='Partial claim (the miasmX-parser clause). On every path of the symbolic decoder exploration both renderings of the decoded instruction are produced by the real printer with every immediate / displacement symbolic, '
+             'each is fed to the matching real parser (asm / asm_att) and the original bytes must be among the candidates for ALL byte values of the path - so operand order, size suffixes, sigils, memory layout and the fsub/fdiv reversal are exercised. '
+             'A miss is reported only for canonical encodings: GNU as, given the concrete rendering at the witness, yields exactly the original bytes. NOT claimed: acceptance of every rendering by GNU as (it is only the canonicity filter).',
+        note='Trusted: z3, proxies, render mode (core.render_number; digit-string <-> integer conversion not modelled), GNU as 2.40 as canonicity filter. Bounds: thin ModRM slice, prefix sets (), (66) [+ (67) thorough], quick samples rows by seed.',
+        design='5/C09 + 9', engine='E2'),
     'C10': dict(
         level='model_checking',
         technique='symbolic execution of the real x86 decoder on symbolic byte strings (z3): exhaustive path sets per opcode row; witness replay for rendering/truncation/stream clauses',
@@ -165,14 +175,10 @@ CHECKS = {
         design='5/C10', engine='E2'),
 }
 
-NOT_APPLICABLE = {
-    'C09': 'The property is about rendered text being accepted by an external assembler (GNU as): neither CPython string '
-           'formatting nor the external tool can be encoded for a solver; the only deciding step would be running as on '
-           'concrete strings, i.e. testing (DESIGN 5/C09).',
-}
+NOT_APPLICABLE = {}
 
 NOT_YET = {}   # id -> reason, for properties whose check is not built yet
-HOLD = {'C10', 'C01', 'C02', 'C03', 'C04', 'C08', 'C11', 'C19'}   # built, but known findings not yet adopted: not claimed until a clean run is committed
+HOLD = {'C10', 'C01', 'C02', 'C03', 'C04', 'C08', 'C11', 'C19', 'C09'}   # built, but known findings not yet adopted: not claimed until a clean run is committed
 
 
 def main():
